@@ -223,10 +223,13 @@ Proof.
   - cbn [length] in IHb. lia.
 Qed.
 
+Lemma filter_len {A} (f : A -> bool) l : length (filter f l) <= length l.
+Proof. induction l as [|a l IH]; cbn; [lia|]. destruct (f a); cbn; lia. Qed.
+
 Lemma allkeys_length s seek : length (allkeys s seek) <= stack_size s.
 Proof.
   unfold allkeys, key_list, from_seek. rewrite map_length.
-  eapply Nat.le_trans; [apply filter_length_le|].
+  eapply Nat.le_trans; [apply filter_len|].
   induction s as [|l r IH]; cbn [stack_size fold_right]; [cbn; lia|].
   change (flatten (l :: r)) with (lmerge l (flatten r)).
   pose proof (lmerge_length l (flatten r)). unfold stack_size in IH. lia.
@@ -253,4 +256,63 @@ Proof.
   rewrite view_lookup in Hin by assumption.
   destruct (N.leb seek k); [|discriminate].
   rewrite lookup_stack_first, Hin. destruct v as [[|b0 bs]|]; reflexivity.
+Qed.
+
+(* ---------------------------------------------------------------------- *)
+(* fast = binary under the "nil means deleted" contract; shape of the output *)
+
+Definition canonical (s : stack) : Prop :=
+  Forall (Forall (fun kv : key * value => snd kv <> Some [])) s.
+
+Lemma lmerge_in a : forall b x, In x (lmerge a b) -> In x a \/ In x b.
+Proof.
+  induction a as [|[ka va] ra IHa]; [intros; rewrite lmerge_nil_l in *; now right|].
+  induction b as [|[kb vb] rb IHb]; intros x; [rewrite lmerge_nil_r; auto|].
+  rewrite lmerge_cons.
+  destruct (N.ltb ka kb); [|destruct (N.eqb ka kb)]; cbn [In]; intros [H|H]; auto.
+  - apply IHa in H. cbn [In] in H. tauto.
+  - apply IHa in H. tauto.
+  - apply IHb in H. cbn [In] in H. tauto.
+Qed.
+
+Lemma flatten_in s x : In x (flatten s) -> exists l, In l s /\ In x l.
+Proof.
+  induction s as [|l r IH]; [intros []|].
+  change (flatten (l :: r)) with (lmerge l (flatten r)). intros H.
+  apply lmerge_in in H. destruct H as [H|H].
+  - exists l. split; [now left|assumption].
+  - destruct (IH H) as (l' & Hl & Hx). exists l'. split; [now right|assumption].
+Qed.
+
+Lemma live_agree s seek : canonical s ->
+  live_entries live_nonnil s seek = live_entries live_nonempty s seek.
+Proof.
+  intros C. rewrite !live_entries_eq.
+  assert (H : forall kv, In kv (from_seek seek (flatten s)) -> sel live_nonnil kv = sel live_nonempty kv).
+  { intros [k v] Hin. apply filter_In in Hin. destruct Hin as [Hin _].
+    apply flatten_in in Hin. destruct Hin as (l & Hl & Hx).
+    unfold canonical in C. rewrite Forall_forall in C. specialize (C l Hl).
+    rewrite Forall_forall in C. specialize (C _ Hx). cbn in C.
+    unfold sel. cbn [fst snd]. destruct v as [[|b0 bs]|]; [congruence|reflexivity|reflexivity]. }
+  induction (from_seek seek (flatten s)) as [|kv r IH]; [reflexivity|].
+  cbn [flat_map]. rewrite H by (now left). f_equal. apply IH. intros; apply H. now right.
+Qed.
+
+Lemma live_entries_ascending live s seek : wf_stack s ->
+  ksorted (map fst (live_entries live s seek)).
+Proof.
+  intros W. rewrite live_entries_eq.
+  apply (flat_sel_spec live _ (view_sorted s seek W)).
+Qed.
+
+Lemma live_entries_meaning live s seek k b : wf_stack s ->
+  In (k, b) (live_entries live s seek) <->
+  ((seek <= k)%N /\ lookup_first k s = Some (Some b) /\ live (Some b) = true).
+Proof.
+  intros W. rewrite live_entries_eq.
+  destruct (flat_sel_spec live _ (view_sorted s seek W)) as (_ & _ & T).
+  rewrite T, view_lookup by assumption.
+  destruct (N.leb_spec seek k) as [Hle|Hgt]; split; intros Hx; try tauto.
+  - destruct Hx as [Hx _]. discriminate.
+  - lia.
 Qed.
